@@ -123,6 +123,9 @@ type side struct {
 	ws       *wsSession // when set, through a graphql-ws connection to API.ServeGraphQLWS
 	features graphql.FeatureSet
 	log      *calls
+	// with api: every query is first registered as a persisted query by a request that has every
+	// feature, then replayed by its hash alone with this side's feature set
+	persisted bool
 }
 
 type observation struct {
